@@ -41,7 +41,10 @@ RULE = ("One run = one live object of one of the ten classes in general position
         "index i < sum(|alphabet(cls)|) fixes the first query (quick), i < sum(|alphabet|^2) the "
         "first ordered pair (thorough). After every step: observables (read from a deep copy) "
         "unchanged since the start, caller arrays bit-for-bit unchanged, every array handed out "
-        "earlier unchanged, repeat returns the same answer. Non-trivial = at least one query "
+        "earlier unchanged, repeat returns the same answer, and the answer equals the one a "
+        "never-queried deep copy of the shape gives (history-independence); when the defining "
+        "geometry is bit-for-bit unchanged every observable must be bit-for-bit unchanged; 35% "
+        "of the runs keep a second live shape of the same class that is asked first. Non-trivial = at least one query "
         "returned a value; distinct = distinct sha256 digests of the event log.")
 ASSUMPTIONS = [
     "'Unchanged' = geometry within 1e-12 of the largest coordinate per operation, every other observable "
@@ -498,6 +501,8 @@ def execute(spec, world):
                 C["runs_with_bystander"] += 1
             except Exception:  # noqa: BLE001
                 other = None
+    with world.step(0, 2, use_fs=False):
+        pristine = copy.deepcopy(obj)  # never queried: the history-free reference
     registry = []  # (step index, op name, path, reference, frozen copy)
     containers = []  # (step index, op name, reference to a returned dict/list, structure)
     prev = "^"
@@ -527,6 +532,8 @@ def execute(spec, world):
             # a mutation may legitimately change arrays handed out earlier (they can be the
             # shape's own storage): keep the references, re-freeze their current content -
             # from here on queries must leave them alone again
+            with world.step(0, 2, use_fs=False):
+                pristine = copy.deepcopy(obj)
             registry = [(si, opn, path, ref, ref.copy()) for _, opn, path, ref, _f in registry]
             containers = [(si, opn, ref, structure(ref)) for _, opn, ref, _s in containers]
             k0 = si + 1
@@ -685,6 +692,49 @@ def execute(spec, world):
                     "earlier by %s (step %d, %s): %s" % (qname, opn, k, path or "value", why),
                     si, cls=cls, op=qname, earlier=opn))
                 break
+
+        # 5. the answer does not depend on the query history: a never-queried copy of the
+        #    shape (same state, same arguments, same seeds) gives the same answer
+        # (texts such as repr print every digit: they are compared only while no earlier
+        #  query has moved the shape and moved it back)
+        textual = st["name"] in ("repr", "str")
+        if outcome == "ok" and st["op"] != "io" and st["name"] not in (
+                "save", "plot", "to_plato_scene") and not (
+                textual and not observe.geometry_bitwise_same(snap0, snap1)):
+            try:
+                with world.step(0, 2, use_fs=False):
+                    clone = copy.deepcopy(pristine)
+                fn3, _ = build_call(clone, st)
+                with world.step(st["pyseed"], st["npseed"], use_fs=False,
+                                solver_script=st.get("solver_script")):
+                    with warnings.catch_warnings():
+                        warnings.simplefilter("ignore")
+                        value3 = fn3()
+                skip_h = _solver_skip(world)
+                solverish = used_solver or len(world.solver.attempts) > 0
+                if not (solverish and (skip_q or skip_h)):
+                    ctx = observe.Ctx(L, 1e-6 if solverish else 1e-9, 1e-12)
+                    ctx.nbase = 0
+                    why = observe._cmp_value(st["name"], observe.canon(copy.deepcopy(value)),
+                                             observe.canon(copy.deepcopy(value3)), ctx)
+                    if why:
+                        res["violations"].append(violation(
+                            PROP, "history-dependent-answer", "%s answered differently from a "
+                            "never-queried copy of the same shape: %s" % (qname, why), si,
+                            cls=cls, op=qname))
+                        break
+                C["history_free_comparisons"] += 1
+            except Exception as e:  # noqa: BLE001
+                if type(e).__name__ == "HarnessTimeout":
+                    raise
+                if isinstance(e, RuntimeError) and "nable to solve" in str(e):
+                    C["history_free_no_answer"] += 1
+                else:
+                    res["violations"].append(violation(
+                        PROP, "history-dependent-answer", "%s returned a value, the same query "
+                        "on a never-queried copy raised %s" % (qname, type(e).__name__), si,
+                        cls=cls, op=qname, exc=type(e).__name__))
+                    break
 
         # register what this step handed out
         if outcome == "ok":
